@@ -155,7 +155,7 @@ func (e *tenv) run(kind string) (bool, string) {
 			return cc.Post(ctx, p, message.TextPlain, &cancelOnRead{cancel: cancel, r: bytes.NewReader([]byte("body"))})
 		})
 		return c.wait(), toutcome(c)
-	case "obsOK", "obsFail", "obsSilentCancel":
+	case "obsOK", "obsFail", "obsSilentCancel", "obsNoObs205", "obsNoObs203":
 		var o interface {
 			Cancel(ctx context.Context, opts ...message.Option) error
 		}
@@ -173,6 +173,10 @@ func (e *tenv) run(kind string) (bool, string) {
 		switch kind {
 		case "obsOK":
 			e.feed(codes.Content, q.Token, message.Options{{ID: message.Observe, Value: []byte{1}}}, []byte("v"))
+		case "obsNoObs205": // the peer does not support observing: a plain 2.05 / 2.03 without the Observe option - nothing is registered
+			e.feed(codes.Content, q.Token, nil, []byte("v"))
+		case "obsNoObs203":
+			e.feed(codes.Valid, q.Token, nil, []byte("v"))
 		case "obsFail":
 			e.feed(codes.NotFound, q.Token, nil, nil)
 		default:
